@@ -41,6 +41,9 @@ pub struct MacroDef {
 pub struct MCase8 {
     pub macros: Vec<MacroDef>,
     pub hist: Vec<Ev>,
+    /// cancellation sweep (0 = off): macro 0 alone is activated and its cancel trigger (release of its
+    /// key / press of another key) arrives `sweep - 1` ms later; `hist` is not used
+    pub sweep: u16,
 }
 
 const VARIANT_NAMES: [&str; 6] = ["macro", "macro-release-cancel", "macro-cancel-on-press", "macro-release-cancel-and-cancel-on-press", "macro-repeat", "macro-repeat-release-cancel"];
@@ -165,7 +168,7 @@ fn mi_from(v: &Value) -> Option<MI> {
 impl Case for MCase8 {
     fn to_json(&self) -> Value {
         json!({"config": cfg_text(self), "macros": self.macros.iter().map(|m| json!({"variant": m.variant, "body": m.body.iter().map(mi_json).collect::<Vec<_>>()})).collect::<Vec<_>>(),
-            "events": hist_to_json(&self.hist)})
+            "events": hist_to_json(&self.hist), "sweep": self.sweep})
     }
     fn from_json(v: &Value) -> Option<Self> {
         Some(MCase8 {
@@ -180,6 +183,7 @@ impl Case for MCase8 {
                 })
                 .collect::<Option<Vec<_>>>()?,
             hist: hist_from_json(&v["events"])?,
+            sweep: v["sweep"].as_u64().unwrap_or(0) as u16,
         })
     }
     fn canon_hash(&self) -> u64 {
@@ -233,7 +237,111 @@ struct Act8 {
     releases: Vec<u64>,
 }
 
+/// Cancellation at every step: macro 0 (a cancel variant) is activated alone and its cancel trigger
+/// arrives x ms later, x swept over the whole run. Reference: the same activation without the
+/// trigger gives the tick of every press of the macro; with the trigger the macro must have pressed
+/// exactly the keys the reference pressed before tick x + CANCEL_LATENCY (the trigger is taken from the
+/// input queue in the next tick, before the macro's step of that tick), and everything is released.
+const CANCEL_LATENCY: u64 = 1;
+fn judge_sweep(c: &MCase8) -> Verdict {
+    let text = cfg_text(c);
+    let variant = c.macros[0].variant % 6;
+    if !matches!(variant, 1 | 2 | 3 | 5) {
+        return Verdict::discard("sweep-needs-a-cancel-variant");
+    }
+    let x = (c.sweep - 1) as u64;
+    let key = code_of(SRC[0]);
+    let mut steps = vec![];
+    expand(0, &c.macros[0].body, &mut steps);
+    let dur = duration(&steps);
+    // release-cancel for the variants that have it (3: chosen by the parity of x), else another key's press
+    let by_release = match variant {
+        1 | 5 => true,
+        3 => c.hist.len() % 2 == 0,
+        _ => false,
+    };
+    if !by_release && x == 0 {
+        // pressed in the same millisecond as the macro key: the macro is not running yet
+        return Verdict::discard("sweep-press-before-the-macro-runs");
+    }
+    let run = |trigger: bool| -> Result<Vec<Out>, String> {
+        let mut sim = Sim::new(&text).map_err(|e| e.to_string())?;
+        sim.tick_n(5);
+        sim.input(key, KeyValue::Press);
+        sim.tick_n(x);
+        if trigger {
+            if by_release {
+                sim.input(key, KeyValue::Release);
+            } else {
+                sim.input(code_of(OTHER[0]), KeyValue::Press);
+            }
+        }
+        sim.tick_n(dur + 30);
+        if !trigger || !by_release {
+            sim.input(key, KeyValue::Release);
+        }
+        if trigger && !by_release {
+            sim.input(code_of(OTHER[0]), KeyValue::Release);
+        }
+        sim.tick_n(dur * 2 + 60);
+        Ok(sim.outs.clone())
+    };
+    let (reference, got) = match (run(false), run(true)) {
+        (Ok(a), Ok(b)) => (a, b),
+        (Err(e), _) | (_, Err(e)) => return Verdict::failed("harness:macro-config-rejected", format!("{text}\n{e}")),
+    };
+    let own: Vec<u16> = LETTERS[0].iter().map(|k| code_of(k)).chain([code_of(MODS[0].1)]).collect();
+    let is_macro_press = |o: &Out| match &o.ev {
+        // (unicode and mouse items reach the OS through a custom event a tick or two after their step: not compared)
+        OutEv::Down(k) => own.contains(k),
+        _ => false,
+    };
+    // the trigger was sent after tick 5 + x; the reference's presses in ticks <= 5 + x + CANCEL_LATENCY - 1 survive
+    // a press cancels when it arrives (in handle_input_event): the macro's step of the next tick is the
+    // first one that does not happen. A release cancels when the layout handles it: it leaves the input
+    // queue in the next tick (not before the tick after the press itself was taken out), after that
+    // tick's macro step.
+    let cutoff = if by_release { (5 + x + 1).max(7) + 1 } else { 5 + x + CANCEL_LATENCY };
+    let mut want: Vec<OutEv> = reference.iter().filter(|o| is_macro_press(o) && o.t < cutoff).map(|o| o.ev.clone()).collect();
+    if variant == 5 {
+        // a repeating macro: only the run(s) up to the trigger
+        want = reference.iter().filter(|o| is_macro_press(o) && o.t < cutoff).map(|o| o.ev.clone()).collect();
+    }
+    let have: Vec<OutEv> = got.iter().filter(|o| is_macro_press(o)).map(|o| o.ev.clone()).collect();
+    let mut v = Verdict::pass(true);
+    v.classes.push("cancel-sweep");
+    v.classes.push(if by_release { "cancel-sweep:by-release" } else { "cancel-sweep:by-press" });
+    let total = reference.iter().filter(|o| is_macro_press(o)).count();
+    if variant != 5 {
+        if want.is_empty() {
+            v.classes.push("cancel-sweep:before-the-first-press");
+        } else if want.len() == total {
+            v.classes.push("cancel-sweep:after-the-last-press");
+        } else {
+            v.classes.push("cancel-sweep:mid-run");
+        }
+    }
+    let describe = || format!("{text}\ntrigger ({}) {x} ms after the press of {}\nwithout the trigger: {}\nwith the trigger   : {}", if by_release { "release of the macro key" } else { "press of another key" }, SRC[0], fmt_outs(&reference), fmt_outs(&got));
+    if have != want {
+        return Verdict::failed(
+            if have.len() > want.len() { "macro:cancel-sweep:pressed-after-the-cancel-took-effect" } else { "macro:cancel-sweep:cancelled-too-early" },
+            format!("{}\nthe macro pressed {} keys, the run without the trigger had pressed {} by the time the cancel takes effect", describe(), have.len(), want.len()),
+        );
+    }
+    let mut os = crate::sim::OsState::default();
+    for o in &got {
+        os.apply(o);
+    }
+    if os.anything_down() {
+        return Verdict::failed("macro:cancel-sweep:key-left-down", describe());
+    }
+    v
+}
+
 fn judge_case(c: &MCase8) -> Verdict {
+    if c.sweep > 0 {
+        return judge_sweep(c);
+    }
     let text = cfg_text(c);
     let mut sim = match Sim::new(&text) {
         Ok(s) => s,
@@ -513,7 +621,7 @@ impl TypedProp for C08 {
     fn info(&self) -> PropInfo {
         PropInfo {
             level: "exploration",
-            rule: "configs: 1-6 macro keys, each with its own letters and modifier so that the OS output identifies the macro; bodies from the macro grammar (keys, delays, modifier-chorded keys, modifier groups, nested lists, unicode, mouse tap); variants macro / release-cancel / cancel-on-press / both / repeat / repeat-release-cancel. Histories: physically consistent presses and releases of the macro keys and two other keys with gaps {0..5,10,30}. Oracle: the harness expands each body itself; the OS transitions on the macro's keys must parse as complete runs of that list, or (cancel variants, > 4 concurrent macros) a prefix followed by the release of everything it holds; steps >= 1 ms apart and stated delays respected; nothing before the trigger; nothing down at the end; a plain or repeating macro without cancel variants in the config completes every activation; a repeating macro starts no round after its key's release was processed; no macro press after a release-cancel / cancel-on-press trigger was processed. Non-trivial: the body has a group or nested list, or a run was cut short, or >= 2 macros ran concurrently. Distinct: hash of the case.",
+            rule: "configs: 1-6 macro keys, each with its own letters and modifier so that the OS output identifies the macro; bodies from the macro grammar (keys, delays, modifier-chorded keys, modifier groups, nested lists, unicode, mouse tap); variants macro / release-cancel / cancel-on-press / both / repeat / repeat-release-cancel. Histories: physically consistent presses and releases of the macro keys and two other keys with gaps {0..5,10,30}. Oracle: the harness expands each body itself; the OS transitions on the macro's keys must parse as complete runs of that list, or (cancel variants, > 4 concurrent macros) a prefix followed by the release of everything it holds; steps >= 1 ms apart and stated delays respected; nothing before the trigger; nothing down at the end; a plain or repeating macro without cancel variants in the config completes every activation; a repeating macro starts no round after its key's release was processed; no macro press after a release-cancel / cancel-on-press trigger was processed. Cancellation sweep (3 cases in 16): one macro of a cancel variant is activated alone and its trigger (release of its key / press of another key) arrives x ms later, x drawn from the whole run: the keys the macro presses must be exactly those the same activation without the trigger has pressed by the tick in which the cancel takes effect (a press cancels on arrival, a release when the layout handles it one tick later), and everything is released. Eviction burst (1 case in 16): 5-6 macros of any variant, each holding its modifier across a 20-60 ms delay, activated within a few milliseconds: nothing may stay down. Non-trivial: the body has a group or nested list, or a run was cut short, or >= 2 macros ran concurrently. Distinct: hash of the case.",
             assumptions: vec![
                 "a cancel variant cancels every running macro (documented), so completeness is only demanded in configs without cancel variants".into(),
                 "re-activating a macro while a copy of it may still run is skipped (two interleaved copies on the same keys)".into(),
@@ -531,15 +639,60 @@ impl TypedProp for C08 {
             distinct_by_construction: false,
             required_classes: vec![
                 "variant:macro", "variant:release-cancel", "variant:cancel-on-press", "variant:release-cancel-and-cancel-on-press", "variant:repeat",
-                "variant:repeat-release-cancel", "cancelled-run", "rounds>=2", "concurrent>=2", "concurrent>4",
+                "variant:repeat-release-cancel", "cancelled-run", "cancel-sweep:by-release", "cancel-sweep:by-press", "cancel-sweep:mid-run", "cancel-sweep:before-the-first-press", "cancel-sweep:after-the-last-press", "rounds>=2", "concurrent>=2", "concurrent>4",
             ],
             hang_secs: 60,
         }
     }
-    fn gen(&self, _tier: Tier, _seed: u64, _idx: u64) -> Gen<MCase8> {
-        Gen::Strat(0)
+    fn gen(&self, _tier: Tier, _seed: u64, idx: u64) -> Gen<MCase8> {
+        Gen::Strat(match idx % 16 {
+            3 | 7 | 11 => 1,
+            15 => 2,
+            _ => 0,
+        })
     }
-    fn strategy(&self, _tier: Tier, _key: u32) -> BoxedStrategy<MCase8> {
+    fn strategy(&self, _tier: Tier, key: u32) -> BoxedStrategy<MCase8> {
+        if key == 2 {
+            // eviction burst: 5-6 macros of any variant, each holding its modifier across a delay at the start
+            // of its body, all activated within a few milliseconds (the ring of running macros has 4 slots):
+            // whatever is evicted or cancelled, nothing may stay down
+            return (prop::collection::vec((0u8..6, 20u16..60, prop::collection::vec(item_strategy(), 0..3)), 5..=6), any::<u16>(), prop::collection::vec(0u32..3, 6..=6), 60u32..200)
+                .prop_map(|(ms, order, gaps, hold)| {
+                    let macros: Vec<MacroDef> = ms
+                        .into_iter()
+                        .map(|(variant, d, rest)| {
+                            let mut body = vec![MI::Group(vec![MI::Key(0), MI::Delay(d), MI::Key(1)])];
+                            body.extend(rest);
+                            MacroDef { variant, body }
+                        })
+                        .collect();
+                    let n = macros.len();
+                    let start = crate::engine::pick(order, n);
+                    let mut hist = vec![];
+                    for j in 0..n {
+                        hist.push(Ev::Press(code_of(SRC[(start + j) % n])));
+                        hist.push(Ev::Gap(gaps[j]));
+                    }
+                    hist.push(Ev::Gap(hold));
+                    for j in 0..n {
+                        hist.push(Ev::Release(code_of(SRC[(start + j) % n])));
+                        hist.push(Ev::Gap(1));
+                    }
+                    MCase8 { macros, hist, sweep: 0 }
+                })
+                .boxed();
+        }
+        if key == 1 {
+            // cancellation sweep: one cancel-variant macro, the trigger at every millisecond of its run
+            return (prop::sample::select(vec![1u8, 2, 3, 5]), prop::collection::vec(item_strategy(), 1..5), any::<u16>(), any::<bool>())
+                .prop_map(|(variant, body, sel, by_release)| {
+                    let mut steps = vec![];
+                    expand(0, &body, &mut steps);
+                    let x = crate::engine::pick(sel, duration(&steps) as usize + 5) as u16;
+                    MCase8 { macros: vec![MacroDef { variant, body }], hist: if by_release { vec![] } else { vec![Ev::Gap(1)] }, sweep: x + 1 }
+                })
+                .boxed();
+        }
         // either only plain / repeating macros (strict completeness) or any mix
         (any::<bool>(), 1usize..=6)
             .prop_flat_map(|(strict, n)| {
@@ -556,7 +709,7 @@ impl TypedProp for C08 {
                     (Just(macros), h)
                 })
             })
-            .prop_map(|(macros, hist)| MCase8 { macros, hist })
+            .prop_map(|(macros, hist)| MCase8 { macros, hist, sweep: 0 })
             .boxed()
     }
     fn judge(&self, case: &MCase8) -> Verdict {
